@@ -112,6 +112,36 @@ def validate_witness(P, e, site):
             return "no publishing call (%s) in %s" % (w["publish"], w["fn"])
         late = [n for n in pubs if order[id(n)] < min(order[id(g)] for g in guards)]
         return None if not late else "the value is published by `%s` at %s before the guard on %s is evaluated: later cache hits skip the guard" % (late[0]["name"], ir.loc(late[0]), w["mentions"])
+    if kind == "counter_bound":
+        # the shift/index operand is a loop counter: starts at a constant, is only ever increased by a constant step, and a diverging
+        # guard `counter >= K` follows the increment; at the use (before the increment) its values are 0, step, 2·step, … < K, so the
+        # largest one must not exceed `max`
+        b = P.fn(site.fn)
+        n = site.node
+        cnt = ir.local_hid(n["r"]) if n.get("k") in ("bin", "assignop") else None
+        if cnt is None:
+            return "the operand is not a local counter"
+        init = [x for x in ir.walk_nodes(b["body"]) if x.get("k") == "let" and x["pat"].get("k") == "bind" and x["pat"]["hid"] == cnt and "init" in x]
+        incs = [x for x in ir.walk_nodes(b["body"]) if x.get("k") in ("assignop", "assign") and ir.local_hid(x["l"]) == cnt]
+        if len(init) != 1 or ir.const_eval(init[0]["init"], {}) is None or len(incs) != 1 or incs[0].get("k") != "assignop" or not incs[0].get("op", "").startswith("+"):
+            return "counter is not `let c = const; … c += const` (init %d, updates %d)" % (len(init), len(incs))
+        start, step = ir.const_eval(init[0]["init"], {}), ir.const_eval(incs[0]["r"], {})
+        if step is None or step <= 0:
+            return "counter step is not a positive constant"
+        ks = []
+        for x in ir.walk_nodes(b["body"]):
+            if x.get("k") == "if" and ir.diverges(x["then"]):
+                c = ir.unparen(x["c"])
+                if c.get("k") == "bin" and c.get("op") in (">=", ">") and ir.local_hid(c["l"]) == cnt and ir.const_eval(c["r"], {}) is not None:
+                    ks.append(ir.const_eval(c["r"], {}) + (1 if c["op"] == ">" else 0))
+        if not ks:
+            return "no diverging guard `counter >= K`"
+        order = {id(x): i for i, x in enumerate(ir.walk_nodes(b["body"]))}
+        if not order[id(n)] < order[id(incs[0])]:
+            return "the use does not precede the increment"
+        K = min(ks)
+        top = start + ((K - 1 - start) // step) * step
+        return None if top <= w["max"] else "the counter reaches %d at the use (start %d, step %d, guard >= %d) but at most %d is safe" % (top, start, step, K, w["max"])
     if kind == "callers_are":
         cs = callers_of(P, site.fn)
         extra = sorted(c for c in cs if c not in set(w["callers"]) and c != site.fn)
